@@ -33,16 +33,22 @@ def observe(q, case):
             other = q.Measurement(float(meas[0].value), 0.1)
             out["derivs"] = [float(r.derivative(m)) for m in meas] + [float(r.derivative(other))]
             out["self"] = float(r.derivative(r))
+            if case.get("revalue"):
+                k, nb = case["revalue"]
+                meas[k].value = unbits(nb)
+                out["derivs2"] = [float(r.derivative(m)) for m in meas]
         except Exception as e:  # noqa: BLE001
             out["exception"] = "{}: {}".format(type(e).__name__, e)
     return out
 
 
-def model_line(case, obs=None):
+def model_line(case, obs=None, revalued=False):
     n = case["n_meas"]
     vals, errs = list(case["vals"]), list(case["errs"])
     if obs and "vals" in obs:
         vals[:n], errs[:n] = obs["vals"], obs["errs"]
+    if revalued:
+        vals[case["revalue"][0]] = case["revalue"][1]
     return {"cmd": "expr", "nodes": exprgen.model_nodes(case["nodes"]), "root": case["root"],
             "vals": vals, "errs": errs, "rho": case["rho"],
             "wrt": list(range(n)) + [len(case["vals"]) + 7]}
@@ -72,6 +78,10 @@ def pretty(case):
     return "{}  with {} {}".format(s(case["root"]), ", ".join(meas), ", ".join(rho))
 
 
+def failures_for(failures, c):
+    return any(f.get("case") is c for f in failures)
+
+
 def run(ctx, what, n_cases, ref=False, gen_kwargs=None, cases=None):
     """what: 'c01' | 'c03'.  Returns the result dict check.py expects."""
     import qexpy as q
@@ -88,10 +98,13 @@ def run(ctx, what, n_cases, ref=False, gen_kwargs=None, cases=None):
     obs = [observe(q, c) for c in cases]
     reset(q)
     mod = ctx.model([model_line(c, o) for c, o in zip(cases, obs)], ref=ref)
+    rv = [i for i, (c, o) in enumerate(zip(cases, obs)) if c.get("revalue") and "derivs2" in o]
+    mod2 = dict(zip(rv, ctx.model([model_line(cases[i], obs[i], True) for i in rv], ref=ref))) \
+        if rv else {}
     failures, nontrivial, skipped = [], set(), 0
     dist = collections.Counter()
     samples = []
-    for c, o, m in zip(cases, obs, mod):
+    for ci, (c, o, m) in enumerate(zip(cases, obs, mod)):
         for op in set(c["ops"]):
             dist["op:" + op] += 1
         dist["meas:{}".format(c["n_meas"])] += 1
@@ -141,6 +154,18 @@ def run(ctx, what, n_cases, ref=False, gen_kwargs=None, cases=None):
                                      "input": pretty(c), "case": c, "wrt": k, "impl": di,
                                      "expected": dv, "bound": db, "clause": "derivative"})
                     break
+            if ci in mod2 and "derivs" in mod2[ci] and not failures_for(failures, c):
+                dist["revalued"] += 1
+                for k, (x, di) in enumerate(zip(mod2[ci]["derivs"], o["derivs2"])):
+                    dv, db = fb(x)
+                    if math.isfinite(dv) and math.isfinite(db) and not close(di, dv, db, slack=256.0):
+                        failures.append({"signature": "c03:derivative-after-change",
+                                         "what": "after m{} was set to {!r}, derivative w.r.t. m{} is "
+                                                 "not the partial derivative at the current central "
+                                                 "values".format(c["revalue"][0], unbits(c["revalue"][1]), k),
+                                         "input": pretty(c), "case": c, "wrt": k, "impl": di,
+                                         "expected": dv, "bound": db, "clause": "current central values"})
+                        break
             if o["self"] != 1.0:
                 failures.append({"signature": "c03:self", "what": "r.derivative(r) is not 1",
                                  "input": pretty(c), "case": c, "impl": o["self"], "expected": 1.0})
